@@ -43,7 +43,7 @@ Q_APT = 4.0              # e, largest atomic polar tensor norm allowed
 KAPPA_Q = 1.0            # e per (V/A): charge response to a uniform field (measured 0.05 for H2O..NH3)
 FLOOR_E, FLOOR_F, FLOOR_Q, FLOOR_EMO = 2e-11, 2e-9, 2e-10, 2e-9
 TOL_CUT = 1e-9
-MECH_COLD = "far-fragments-cold-start-scf-charge-transfer-state"
+MECH_COLD = "far-fragments-cold-start-pulay-lands-on-other-stationary-point"
 R_ALL = [8, 12, 20, 30, 50, 100, 200, 500]
 R_MIN_JUDGED = 8         # every generated separation is judged; the allowances (1 + 10 A / R_eff, quadrupole terms) cover the near range
 FRAGS = ["H2O", "NH3", "CH4", "HF", "CO", "CO2", "N2", "HCN", "C2H2", "C2H4", "CH2O", "CH3OH", "CH3F", "LiH", "HCl",
@@ -336,7 +336,12 @@ def _run_frag(case):
                 if not bool(warm["notconverged"][0]):
                     wdev = deviations(warm)
                     if all(v <= b for v, b in wdev.values()):
-                        mech = MECH_COLD
+                        # listed mechanism only if it is specific to the cold-start Pulay path: the same dimer
+                        # started cold with the adaptive solver must be additive too (or truthfully flagged)
+                        alt = run.single_point(Z, X, _settings(method, conv=(1,)))
+                        cnt("cold_adaptive_reruns")
+                        if bool(alt["notconverged"][0]) or all(v <= b for v, b in deviations(alt).values()):
+                            mech = MECH_COLD
                         dev_for_margin = wdev
                     else:
                         dev_for_margin = dev
